@@ -264,8 +264,8 @@ End KAfterStop.
 (* non-vacuity witness: f (depth 1) with a deferred call: return statement (index 3), its epilogue without position
    (index 4), the deferred function one level deeper (5, 6) *)
 Definition kwit_trace : list stmt :=
-  [mkStmt 1 35 false true; mkStmt 1 56 false false; mkStmt 1 65 false false; mkStmt 1 77 false false;
-   mkStmt 1 0 false false; mkStmt 2 1 false true; mkStmt 2 13 false false].
+  [mkStmt 1 35 false true false; mkStmt 1 56 false false false; mkStmt 1 65 false false false; mkStmt 1 77 false false false;
+   mkStmt 1 0 false false false; mkStmt 2 1 false true false; mkStmt 2 13 false false false].
 
 Lemma kwit_next : kstops kwit_trace [Step; Step; Step; Next] = [(0, false); (1, false); (2, false); (3, false)].
 Proof. vm_compute. reflexivity. Qed.
